@@ -147,8 +147,8 @@ Proof.
     destruct bw as [x4|] eqn:Ebw end.
   - intros E; inversion E; subst.
     assert (H4 : results_ok a (session_ x4)).
-    { destruct (n_router n) as [rt|]; [|discriminate]. destruct (rt_wait rt) as [[[] tmo]|]; try discriminate.
-      dmatch_hyp Ebw; [discriminate|]. inversion Ebw; subst. apply results_ok_log_event; auto. }
+    { destruct (n_router n) as [rt|]; [|discriminate]. destruct (rt_wait rt) as [[[] tmo]|]; try discriminate; try (dmatch_hyp Ebw; [discriminate|]); inversion Ebw; subst.
+      all: (apply results_ok_log_event; auto). }
     change (results_ok a (session_ (with_session x4 (fun s => upd_run s ri (run_set_status RWaiting))))). apply results_ok_upd_same; auto.
   - destruct (pick_node_exit a x3 ri n (length (r_path r0)) false []) as [x5 [e5 op5]| |] eqn:Epk; try discriminate.
     intros E; inversion E; subst. eapply pick_node_exit_results; eauto.
